@@ -222,6 +222,12 @@ SCEN = {
     "tcp_bind": ("tcp_bind", const(".")), "tcp_bind_inuse": ("tcp_bind", const(".")),
     "tcp_accept": ("accept", const(".")), "tcp_try_accept": ("try_accept", const(".")), "tcp_try_accept_none": ("try_accept", const(".")),
     "tcp_accept_timeout": ("accept_timeout", const("1")), "tcp_accept_timeout_none": ("accept_timeout", const("1")),
+    # round 8 (C12-m9): ARGUMENTS A PURE STEP REJECTS - a timeout no TimeSpec can hold (Duration::MAX, i64::MAX + 1 s): the
+    # model's step "timeout fits a TimeSpec" takes its failure branch; no system call fails on that path, so the fault sweep
+    # alone never reaches it (a connection is pending, so a wrongly accepted timeout would hand a descriptor out)
+    "unix_accept_timeout_huge": ("accept_timeout", const("0")), "unix_accept_timeout_huge2": ("accept_timeout", const("0")),
+    "tcp_accept_timeout_huge": ("accept_timeout", const("0")), "tcp_accept_timeout_huge2": ("accept_timeout", const("0")),
+    "tcp_connect_timeout_huge": ("tcp_connect_timeout", const("0")), "tcp_connect_timeout_huge2": ("tcp_connect_timeout", const("0")),
     "spawn_inherit": ("spawn_inherit", steps_spawn), "spawn_null": ("spawn_null", steps_spawn), "spawn_pipe": ("spawn_pipe", steps_spawn),
     "spawn_mixed": ("spawn_mixed", steps_spawn), "spawn_rawfd": ("spawn_rawfd", steps_spawn), "spawn_noexec": ("spawn_inherit", steps_spawn),
     "spawn_rawfd_late": ("spawn_rawfd_late", steps_spawn),
@@ -332,6 +338,11 @@ def sig_of(case, out, why):
     return {"scenario": scen_of(case), "entry": entry_of(case), "kind": why.split(":")[0], "call": fault_call(case, d) if d else "?"}
 
 
+# model script -> outcomes ('0' fails / '1' passes) its FIRST pure step (`.step`: argument validation, conversion) was driven to.
+# A step that only ever passes leaves its failure branch to the theorem alone (C12-m9 hid there): reported in coverage.
+STEP_OUTCOMES = {}
+
+
 def model_lines(case, out):
     """driver input for the caller's view (and the forked child's view) of one measured case"""
     name = scen_of(case)
@@ -343,6 +354,8 @@ def model_lines(case, out):
         steps = stepf(tr, d["out"], d.get("ents", "-"), case) or "."
     else:
         steps = stepf(tr, d["out"], d.get("ents", "-")) or "."
+    if steps != ".":
+        STEP_OUTCOMES.setdefault(script, set()).add(steps[0])
     # the caller's view runs against a kernel table: the numbers open at entry, the numbers the operation was given
     lines = ["K cur %s a=%s s=%s t=%s own=%s" % (script, ans, steps, d["tab"], d["own"])]
     ch = [t for t in toks(d.get("child", "-")) if t[0] not in ("exit", "exit_group", "returned")]
@@ -672,6 +685,8 @@ def run(ctx):
         ctx.hist("failed_call", fault_call(c, d))
         ctx.hist("handed", d["handed"])
     ctx.extra["scenarios"] = len(SCEN)
+    ctx.extra["pure_step_outcomes_driven"] = {k: "".join(sorted(v)) for k, v in sorted(STEP_OUTCOMES.items())}
+    ctx.extra["pure_steps_with_one_outcome_only"] = sorted(k for k, v in STEP_OUTCOMES.items() if len(v) < 2)
     ctx.extra["model_scripts_exercised"] = sorted({v[0] for v in SCEN.values()})
     for c, o in (allc[:3] + [x for x in allc if "e11!" in x[1] and "ppoll" in x[1]][:2] + [x for x in allc if " c" in x[0]][:2]
                  + [x for x in allc if x[0].startswith("io_uring_drop")][:1]):
